@@ -167,6 +167,20 @@ func (s *KeyStore) pushASNring(data []byte, path string) (err error) {
 	curPath := path + keyringSuffix
 	newPath := path + keyringSuffix + newSuffix
 	err = s.fs.Put(newPath, data)
+	if err == backend.ErrExist {
+		// An earlier update of this key ring was interrupted between Put and Rename and left
+		// its temporary file behind. Its content has never been committed, and we hold the
+		// exclusive store lock so nobody else is writing it now: remove the leftover and retry.
+		// Otherwise every later update of this key ring would fail forever.
+		if remover, ok := s.fs.(backend.Remover); ok {
+			s.log.WithField("path", newPath).Warn("removing temporary key ring file left by an interrupted update")
+			err = remover.Remove(newPath)
+			if err != nil && err != backend.ErrNotExist {
+				return err
+			}
+			err = s.fs.Put(newPath, data)
+		}
+	}
 	if err != nil {
 		return err
 	}
